@@ -796,6 +796,10 @@ func (db *DB) newTransaction(update, isManaged bool) *Txn {
 		count:  1,                       // One extra entry for BitFin.
 		size:   int64(len(txnKey) + 10), // Some buffer for the extra entry.
 	}
+	// The value of the extra (end-of-transaction) entry is the commit timestamp in decimal, up to
+	// 20 digits. Reserve room for it, so that a transaction whose writes were all accepted by
+	// checkSize is never rejected with ErrTxnTooBig by sendToWriteCh at commit time.
+	txn.size += 20
 	if update {
 		if db.opt.DetectConflicts {
 			txn.conflictKeys = make(map[uint64]struct{})
